@@ -55,6 +55,53 @@ theorem run_cl_within_gen (cfg : Cfg) (s : St) (segs : List Str) (hb : step cfg 
   · simp only [finishReq, hka2, if_true, takeBody, St.deliver, s1, St.emit]
     split <;> simp [pushEv]
 
+/-- the same on a non-persistent request (`Connection: close`, HTTP/1.0, `no_keep_alive`): delivered whole, finished,
+    answered, and then the connection is closed by the server — this is the end of the run -/
+theorem run_cl_within_close_gen (cfg : Cfg) (s : St) (segs : List Str) (hb : step cfg s = none)
+    (hp : s.phase = .headers) (k n : Nat) (m t v : Str) (h : Hdrs) (hostv : Str)
+    (hk : findHeadEnd (s.buf ++ segs.flatten) = some k) (hfit : k ≤ cfg.maxHeader)
+    (hparse : parseHead ((s.buf ++ segs.flatten).take k) = some ((m, t, v), h))
+    (hka : canKeepAlive cfg.noKeepAlive m v h = some false) (hhost : hostCheck v h = some hostv)
+    (hbody : bodyKind (effLimit cfg s.idx) h = some (.fixed (n + 1)))
+    (hall : k + (n + 1) ≤ (s.buf ++ segs.flatten).length) :
+    (run cfg s segs).phase = .closed ∧
+      (run cfg s segs).out = [.closed, .w200, .fin, .data s.idx (((s.buf ++ segs.flatten).drop k).take (n + 1))] ++
+        (if hGet h kExpect = some k100Continue then [Ev.w100] else []) ++ .req m t v (hAll h) :: s.out := by
+  have ho : s.phase ≠ .closed := by rw [hp]; simp
+  have hnot : ¬ k > cfg.maxHeader := by omega
+  have hs1 : step cfg { s with buf := s.buf ++ segs.flatten }
+      = some (onHead cfg { s with buf := (s.buf ++ segs.flatten).drop k } ((s.buf ++ segs.flatten).take k)) := by
+    simp [step, hp, stepHeaders, hk, hnot]
+  generalize hB : s.buf ++ segs.flatten = B at *
+  have e1 : onHead cfg { s with buf := B.drop k } (B.take k)
+      = { (({ s with buf := B.drop k, idx := s.idx + 1, ka := false, limit := effLimit cfg s.idx, got := 0 } : St).emit
+          (if hGet h kExpect = some k100Continue then [.req m t v (hAll h), .w100] else [.req m t v (hAll h)]))
+          with phase := .fixed (n + 1) } := by
+    simp [onHead, hparse, hka, hhost, startReq, hbody, startBody]
+  have hlen : n + 1 ≤ (B.drop k).length := by simp only [List.length_drop]; omega
+  have hne : (B.drop k).isEmpty = false := by
+    cases hd : B.drop k with
+    | nil => rw [hd] at hlen; simp at hlen
+    | cons _ _ => rfl
+  let s1 : St :=
+    { (({ s with buf := B.drop k, idx := s.idx + 1, ka := false, limit := effLimit cfg s.idx, got := 0 } : St).emit
+        (if hGet h kExpect = some k100Continue then [.req m t v (hAll h), .w100] else [.req m t v (hAll h)]))
+        with phase := .fixed (n + 1) }
+  have hbuf : s1.buf = B.drop k := rfl
+  have hs2 : step cfg s1 = some (finishReq (takeBody s1 (n + 1))) := by
+    show stepFixed s1 (n + 1) = _
+    simp only [List.length_drop] at hlen
+    simp [stepFixed, hbuf, hne]
+    intro hc; omega
+  have hka2 : (takeBody s1 (n + 1)).ka = false := rfl
+  have hc : (finishReq (takeBody s1 (n + 1))).phase = .closed := by simp [finishReq, hka2]
+  have hrun : run cfg s segs = finishReq (takeBody s1 (n + 1)) := by
+    rw [run_open_eq cfg s segs hb ho, hB, drain_of_some hs1, e1, drain_of_some hs2, drain_of_closed hc]
+  rw [hrun]
+  refine ⟨hc, ?_⟩
+  simp only [finishReq, hka2, Bool.false_eq_true, if_false, takeBody, St.deliver, s1, St.emit]
+  split <;> simp [pushEv]
+
 /-- a chunk within the limit (running total + size ≤ limit, equality included) that is completely buffered: its bytes are
     handed over, and the machine is back at the next chunk-size line with the new running total -/
 theorem run_chunk_within_gen (cfg : Cfg) (s : St) (segs : List Str) (hb : step cfg s = none)
